@@ -655,9 +655,91 @@ Proof.
   rewrite E2, E1. change (S_FAMILY_THETA =? S_FAMILY_THETA) with true. cbn [negb].
   change (1 =? 3) with false. change (1 =? 4) with false. change (1 =? 2) with false. change (1 =? 1) with true. cbv iota.
   unfold dec_v1. rewrite has_true by lia. cbn [negb].
-  rewrite Ec. unfold cnt_of at 1 2. rewrite Nat2N.id. rewrite has_true by lia. rewrite Et, Eh.
+  assert (Hcn : N.to_nat (cnt_of a) = length (a_entries a)) by (unfold cnt_of; apply Nat2N.id).
+  rewrite Ec, Hcn. rewrite has_true by lia. rewrite Et, Eh.
   apply tabs_eq; try congruence. rewrite Hem. unfold cnt_of, est.
-  destruct (length (a_entries a)); cbn [Nat.eqb N.of_nat]; [|reflexivity].
-  change (0 =? 0) with true. cbn [andb].
+  destruct (a_entries a) as [|e0 r0]; cbn [length Nat.eqb]; [|reflexivity].
+  change (N.of_nat 0 =? 0) with true. cbn [andb].
   destruct (N.ltb_spec (a_theta a) S_MAX_THETA); destruct (N.eqb_spec (a_theta a) S_MAX_THETA); try reflexivity; lia.
+Qed.
+
+Theorem spec_roundtrip_v2 : forall sh a, abs_okb a = true -> expressible V2 a = true ->
+  dec_spec sh (enc_v2 a) = Some a.
+Proof.
+  intros sh a Hok Hex. destruct (expressible_12 a Hex) as [Ho Hem].
+  destruct (abs_ok_parts a Hok) as [Hent [Hth0 [Hth [Hemp [Hord [Hsd Hcnt]]]]]].
+  pose proof (entries_lt64 a Hok) as H64.
+  assert (Hcn : N.to_nat (cnt_of a) = length (a_entries a)) by (unfold cnt_of; apply Nat2N.id).
+  unfold enc_v2. unfold est in *.
+  destruct (N.ltb_spec (a_theta a) S_MAX_THETA) as [Hest|Hex2].
+  - (* estimating: preLongs 3 *)
+    change (3 =? 1) with false. change (3 =? 3) with true. cbv iota.
+    set (img := [3; 2; S_FAMILY_THETA; 0; 0; 0] ++ le_bytes 2 (a_seed_hash a) ++ (le_bytes 4 (cnt_of a) ++ [0; 0; 0; 0]) ++ le_bytes 8 (a_theta a) ++ entry_bytes a).
+    assert (Hlen : length img = (24 + 8 * length (a_entries a))%nat).
+    { unfold img, entry_bytes. rewrite !app_length, !le_bytes_length, flat_map_le8_length. cbn [length]. lia. }
+    assert (Es : u 2 6 img = a_seed_hash a) by (unfold img; apply u_app; [reflexivity|exact Hsd]).
+    assert (Ec : u 4 8 img = cnt_of a).
+    { unfold img. rewrite (app_assoc [3; 2; S_FAMILY_THETA; 0; 0; 0]). rewrite <- (app_assoc (le_bytes 4 (cnt_of a))).
+      apply u_app; [rewrite app_length, le_bytes_length; reflexivity|exact Hcnt]. }
+    assert (Et : u 8 16 img = a_theta a).
+    { unfold img. rewrite !app_assoc. rewrite <- (app_assoc _ (le_bytes 8 (a_theta a))).
+      apply u_app; [rewrite !app_length, !le_bytes_length; reflexivity|]. change (256 ^ N.of_nat 8) with M64. unfold M64, S_MAX_THETA in *. lia. }
+    assert (Eh : hashes (length (a_entries a)) 24 img = a_entries a).
+    { unfold img, entry_bytes. rewrite !app_assoc. rewrite <- (app_nil_r (flat_map (le_bytes 8) (a_entries a))). rewrite app_assoc.
+      rewrite <- app_assoc. apply hashes_flat; [rewrite !app_length, !le_bytes_length; reflexivity|exact H64]. }
+    unfold dec_spec. rewrite has_true by lia. cbn [negb].
+    assert (E2 : nth 2 img 0 = S_FAMILY_THETA) by reflexivity. assert (E1 : nth 1 img 0 = 2) by reflexivity.
+    assert (E0 : nth 0 img 0 = 3) by reflexivity.
+    rewrite E2, E1. change (S_FAMILY_THETA =? S_FAMILY_THETA) with true. cbn [negb].
+    change (2 =? 3) with false. change (2 =? 4) with false. change (2 =? 2) with true. cbv iota.
+    unfold dec_v2. rewrite E0. change (3 =? 1) with false. change (3 =? 2) with false. change (3 =? 3) with true. cbv iota.
+    rewrite Ec, Hcn. rewrite has_true by lia. rewrite Et, Eh, Es.
+    apply tabs_eq; try congruence. rewrite Hem.
+    destruct (N.eqb_spec (a_theta a) S_MAX_THETA); [lia|]. cbn [negb]. now rewrite !andb_false_r.
+  - assert (Eth : a_theta a = S_MAX_THETA) by lia. cbn [negb] in Hem. rewrite andb_true_r in Hem.
+    destruct (a_empty a) eqn:Ee.
+    + (* empty: preLongs 1 *)
+      change (1 =? 1) with true. change (1 =? 3) with false. cbv iota.
+      destruct (Hemp eq_refl) as [Ees _]. unfold entry_bytes. rewrite Ees. cbn [flat_map]. rewrite !app_nil_r.
+      set (img := [1; 2; S_FAMILY_THETA; 0; 0; 0] ++ le_bytes 2 (a_seed_hash a)).
+      assert (Es : u 2 6 img = a_seed_hash a).
+      { unfold img. rewrite <- (app_nil_r (le_bytes 2 (a_seed_hash a))). apply u_app; [reflexivity|exact Hsd]. }
+      unfold dec_spec. rewrite has_true by (unfold img; rewrite app_length, le_bytes_length; cbn [length]; lia). cbn [negb].
+      assert (E2 : nth 2 img 0 = S_FAMILY_THETA) by reflexivity. assert (E1 : nth 1 img 0 = 2) by reflexivity.
+      assert (E0 : nth 0 img 0 = 1) by reflexivity.
+      rewrite E2, E1. change (S_FAMILY_THETA =? S_FAMILY_THETA) with true. cbn [negb].
+      change (2 =? 3) with false. change (2 =? 4) with false. change (2 =? 2) with true. cbv iota.
+      unfold dec_v2. rewrite E0. change (1 =? 1) with true. cbv iota. rewrite Es.
+      apply tabs_eq; congruence.
+    + (* exact: preLongs 2 *)
+      change (2 =? 1) with false. change (2 =? 3) with false. cbv iota. rewrite app_nil_l.
+      set (img := [2; 2; S_FAMILY_THETA; 0; 0; 0] ++ le_bytes 2 (a_seed_hash a) ++ (le_bytes 4 (cnt_of a) ++ [0; 0; 0; 0]) ++ entry_bytes a).
+      assert (Hlen : length img = (16 + 8 * length (a_entries a))%nat).
+      { unfold img, entry_bytes. rewrite !app_length, !le_bytes_length, flat_map_le8_length. cbn [length]. lia. }
+      assert (Es : u 2 6 img = a_seed_hash a) by (unfold img; apply u_app; [reflexivity|exact Hsd]).
+      assert (Ec : u 4 8 img = cnt_of a).
+      { unfold img. rewrite (app_assoc [2; 2; S_FAMILY_THETA; 0; 0; 0]). rewrite <- (app_assoc (le_bytes 4 (cnt_of a))).
+        apply u_app; [rewrite app_length, le_bytes_length; reflexivity|exact Hcnt]. }
+      assert (Eh : hashes (length (a_entries a)) 16 img = a_entries a).
+      { unfold img, entry_bytes. rewrite !app_assoc. rewrite <- (app_nil_r (flat_map (le_bytes 8) (a_entries a))). rewrite app_assoc.
+        rewrite <- app_assoc. apply hashes_flat; [rewrite !app_length, !le_bytes_length; reflexivity|exact H64]. }
+      unfold dec_spec. rewrite has_true by lia. cbn [negb].
+      assert (E2 : nth 2 img 0 = S_FAMILY_THETA) by reflexivity. assert (E1 : nth 1 img 0 = 2) by reflexivity.
+      assert (E0 : nth 0 img 0 = 2) by reflexivity.
+      rewrite E2, E1. change (S_FAMILY_THETA =? S_FAMILY_THETA) with true. cbn [negb].
+      change (2 =? 3) with false. change (2 =? 4) with false. change (2 =? 2) with true. cbv iota.
+      unfold dec_v2. rewrite E0. change (2 =? 1) with false. change (2 =? 2) with true. cbv iota.
+      rewrite Ec, Hcn. rewrite has_true by lia. rewrite Eh, Es.
+      apply tabs_eq; try congruence.
+      unfold cnt_of in Hem. destruct (a_entries a); cbn [length Nat.eqb] in *; [discriminate|congruence].
+Qed.
+
+Theorem spec_roundtrip : forall sh v a, abs_okb a = true -> expressible v a = true -> a_seed_hash a = sh ->
+  dec_spec sh (enc_spec v a) = Some a.
+Proof.
+  intros sh v a Hok Hex Hseed. destruct v as [| |sf|]; cbn [enc_spec].
+  - now apply spec_roundtrip_v1.
+  - now apply spec_roundtrip_v2.
+  - now apply spec_roundtrip_v3.
+  - now apply spec_roundtrip_v4.
 Qed.
